@@ -182,6 +182,37 @@ impl<'a> World<'a> {
     }
 }
 
+/// Decode every statistics file (zstd-compressed CSV) in `dir`: (files, all readable, per-file rows of (ip, 9 counters in the
+/// order rfc_requests, classic_requests, invalid_requests, failed_send_attempts, retried_send_attempts, health_checks,
+/// rfc_responses_sent, classic_responses_sent, bytes_sent))
+pub fn decode_report_dir(dir: &str) -> (usize, bool, Vec<(String, [u64; 9])>) {
+    let mut files = 0usize;
+    let mut readable = true;
+    let mut rows = vec![];
+    let order = ["rfc_requests", "classic_requests", "invalid_requests", "failed_send_attempts", "retried_send_attempts", "health_checks",
+                 "rfc_responses_sent", "classic_responses_sent", "bytes_sent"];
+    if let Ok(rd) = std::fs::read_dir(dir) {
+        for e in rd.flatten() {
+            files += 1;
+            let f = match std::fs::File::open(e.path()) { Ok(f) => f, Err(_) => { readable = false; continue; } };
+            let dec = match zstd::Decoder::new(f) { Ok(d) => d, Err(_) => { readable = false; continue; } };
+            let mut rdr = csv::Reader::from_reader(dec);
+            let headers: Vec<String> = rdr.headers().map(|h| h.iter().map(|x| x.to_string()).collect()).unwrap_or_default();
+            let col = |name: &str| headers.iter().position(|h| h == name);
+            for rec in rdr.records() {
+                let rec = match rec { Ok(r) => r, Err(_) => { readable = false; continue; } };
+                let ip = col("ip_addr").and_then(|c| rec.get(c)).unwrap_or("").to_string();
+                let mut c = [0u64; 9];
+                for (k, name) in order.iter().enumerate() {
+                    match col(name).and_then(|i| rec.get(i)).and_then(|x| x.parse().ok()) { Some(v) => c[k] = v, None => readable = false }
+                }
+                rows.push((ip, c));
+            }
+        }
+    }
+    (files, readable, rows)
+}
+
 /// replay TLC behaviours (op sequences of MC_Stats) on real objects, writing the observation trace
 pub fn replay(path: &str, out_path: &str) {
     let f = std::fs::File::open(path).expect("open behaviours");
